@@ -103,6 +103,18 @@ def build(rng: random.Random, size: str = "quick"):
             add({"fn": "bban", "country": other, "value": b}, f"listed:{b}")
             add({"fn": "iban_lookup", "text": R.make_iban(other, b)}, f"listed:{b}")
             add({"fn": "iban", "text": R.make_iban(other, b), "kw": {"validate_bban": True}}, f"listed:{b}")
+    # banks listed with several records (shared per-key lists): look-ups and validations of the same key
+    multi_keys = sorted((k for k in keys if len(idx[k]) >= 3), key=lambda k: (-len(idx[k]), k))[:40]
+    for c, code in rng.sample(multi_keys, min(len(multi_keys), 6 if size == "quick" else 25)):
+        t = build_iban_around(c, code, table, rng)
+        if t is None:
+            continue
+        g = f"multi:{c}:{code}"
+        add({"fn": "from_bank_code", "country": c, "code": code}, g)
+        add({"fn": "candidates", "country": c, "code": code}, g)
+        add({"fn": "iban_lookup", "text": t}, g)
+        add({"fn": "bban", "country": c, "value": t[4:]}, g)
+        add({"fn": "iban", "text": t, "kw": {"validate_bban": True}}, g)
     # same seed, different countries / pins / modes
     for s in range(3 if size == "quick" else 12):
         for cc in rng.sample(cs, 5) + ["", "PL", "NO"]:
